@@ -116,6 +116,13 @@ class Evaluator:
                     if c is not None:
                         raise NeedAtom(c[0], e)
                 raise
+        if isinstance(e, ast.Call) and isinstance(e.func, ast.Name) and e.func.id in ("isinstance", "issubclass") and len(e.args) == 2 \
+                and isinstance(e.args[1], ast.Tuple) and e.args[1].elts and not e.keywords:
+            # isinstance(x, (A, B))  ==  isinstance(x, A) or isinstance(x, B)
+            for t in e.args[1].elts:
+                if self.ev(ast.copy_location(ast.Call(func=e.func, args=[e.args[0], t], keywords=[]), e)):
+                    return True
+            return False
         if isinstance(e, (ast.Name, ast.Attribute, ast.Call, ast.Subscript)):
             raise NeedAtom(k, e)
         raise Unsupported(f"expression kind {type(e).__name__} in guard: {k}", e)
